@@ -31,15 +31,24 @@ CHECKS = {
  "C08": ("Lean theorems about the model writer: both framings wrap the same body and the prefix is len(record.String()) (framing_wraps_same_body); under EBCDIC the body of an ASCII-text record is its byte-for-byte CP037 transliteration of equal length (ebcdic_translit, via encode_ascii over the encoder model and the regenerated table), record 52 transliterates toString(false) and passes the image bytes of String() through (ebcdic_ivData); length-prefix framing is lossless (splitLP_joinLP). The model writer is tied to writer.go by rendering generated files (base64 images, lying image lengths, binary signatures included) in all four option sets with both, and the relations are checked on the real bytes.",
          TB + "gdamore/encoding's encoder is modelled (rune-level, chunk boundary behaviour of x/text transform.String beyond 128-byte lines is NOT modelled; lines with non-ASCII text longer than 128 bytes are outside the model). One recorded finding (binary signature under EBCDIC).",
          "Lean 4 proof on the writer model + four-rendering correspondence", "§7.8"),
+ "C15": ("`decide` on the regenerated server schema (struct tags, types): JSON member names are distinct under encoding/json's case-insensitive matching, every field the X9 layout writes is a JSON member; Lean theorem that the rebuild performed by FileFromJSON keeps the bundle control's caller-settable members (bundle_keeps_user_members). End to end: generated fully populated built files (IDs, user fields, binary bytes, zero/non-zero optional dates) through json.Marshal -> FileFromJSON, members and X9 bytes in four encodings compared.",
+         TB + "PARTIAL at proof level: encoding/json itself is not modelled (schema-level facts only); the round trip is established on generated files.",
+         "Lean 4 table proofs over the regenerated JSON schema + round-trip harness", "§7.15"),
  "C16": ("scanVariableLengthLines is TRANSLATED statement by statement into Lean (Gen.splitLP, regenerated each run); Lean proves it satisfies SplitOK (splitLP_ok) and, for any SplitOK split function, that the bufio.Scanner model yields the whole-input reference over EVERY chunk schedule (zero-length reads included) and buffer bound unless ErrTooLong (scan_eq_ref, chunk_independent); a stream cut inside a record ends in ErrUnexpectedEOF (cut_is_error). The scanner model is tied to the real bufio.Scanner by reading every truncation of generated files through chunking io.Readers and several buffer sizes, including too-small ones.",
          TB + "bufio.Scanner is modelled (pending bytes, buffer bound, reads capped by room); its 100-empty-reads limit and ErrFinalToken are not modelled. bufio.ScanLines (newline framing) is modelled but its SplitOK proof is not done: newline framing is covered by the chunked correspondence only.",
          "Lean 4 proof over the translated split function + scanner model; chunked-reader correspondence", "§7.16"),
+ "C17": ("Regenerated write-effect table (every assignment through the receiver in every observer method: Validate, fieldInclusion, String, toString, *Field, MarshalJSON, Get*, ...): `decide` shows it holds exactly the two FRB-gated normalisations; Lean proves that with the mode off every regenerated rule tree returns the record unchanged, for every record value (validate_off_is_identity), and validating twice = once. Real code: reflection snapshots of every exported and unexported field around seeded observer sequences on valid and spoiled files; build twice vs once.",
+         TB + "Idempotence of build is checked on the real code and through the build correspondence, its model theorem is not stated (needs the parse∘format inverse).",
+         "Lean 4 proof over regenerated rule trees and write-effect table + snapshot harness", "§7.17"),
  "C18": ("Lean theorems on the reader model: a failed read carries the 1-based position of the record at which the loop stopped (C18_error_line, using lineStable proved by case analysis of all 21 record kinds) and the rejecting step leaves r.File untouched (rejected_record_leaves_file). Tied to reader.go by spoiling every record of generated files in every way (each field blank/zero/illegal, too short, unknown type) and comparing verdict, line and partial file.",
          TB + "The theorem speaks about the model's step function; agreement with reader.go is by correspondence (0 disagreements over every spoil of the generated files).",
          "Lean 4 proof on the reader model + exhaustive spoiled-record correspondence", "§7.18"),
  "C19": ("Lean: `Mono`, a decidable criterion on rule trees (mode used only to skip a rejection, or to normalise a value the mode-off path rejects), is proved sound for every record value (mono_sound) and established by `decide` for the rule tree regenerated from every Validate(); hence validate_relaxes. Reader level: both modes are run by the real Reader and the model on generated files and per-column character sweeps (ASCII and EBCDIC).",
          TB + "PARTIAL at proof level for the reader: the IBM1047 byte substitution on addendum A lines (EBCDIC input only, after the recorded fix) is covered by the two-mode correspondence stream, not by a theorem.",
          "Lean 4 proof over regenerated rule trees + two-mode correspondence", "§7.19"),
+ "C20": ("Server and client JSON schemas are regenerated from struct tags and field types (library model; client/model_*.go); `mismatches` (decidable: no client member of matching name, or a type that cannot hold the values, e.g. int32 for a 10+ digit amount) is shown by `decide` to equal the committed list of recorded findings exactly, so any further drift breaks the theorem. Real code: fully populated server documents through client.IclFile and back, compared leaf by leaf; each wide integer at its column maximum.",
+         TB + "The property is FALSE on the pinned tree for the recorded members (39 schema entries; 69 leaf-level keys in known_findings.json); the client is generated from openapi.yaml, regenerating it is not a small repair. The client's HTTP plumbing is exercised by C11's harness only.",
+         "Lean 4 table proof over regenerated schemas + through-the-client wire comparison", "§7.20"),
  "C10": ("Validate() of every record is translated (go/ast) into a statement tree; Lean proves that its verdict on ANY record value is the first firing rule of its flattening (validate_sites) and `decide` shows the flattening and all code tables equal the hand-transcribed documented rules. The finite domain the property names (0-2 character strings, ints -1..100, both FRB settings) is additionally enumerated against the real Validate().",
          TB + "Go regexp evaluated per byte for the three character classes; the rule translator is validated each run by ~1M real Validate() verdicts.",
          "Lean 4 proof over regenerated rule trees/code tables + exhaustive correspondence", "§7.10"),
